@@ -270,6 +270,38 @@ def shutil_rm(p):
     shutil.rmtree(p, ignore_errors=True)
 
 
+def work_submodule(bins, seed, idx, tmp):
+    """a super-project with a checked-out submodule: clean, then with a tracked file edited inside the submodule (` M lib` in `git status`)"""
+    rng = random.Random("%s/sub%d" % (seed, idx))
+    path = os.path.join(tmp, "sub%d" % idx, "repo")
+    os.makedirs(os.path.dirname(path), exist_ok=True)
+    pr = core.worker_probe(bins, key="git", env=core.base_env(bins, home=os.path.dirname(path)))
+    bad = []
+    n = 0
+    repo = None
+    try:
+        repo = gitmodel.Repo(path, rng)
+        repo.commit()
+        repo.add_submodule()
+        repo.tag(rng.choice(["v1.2.3", "2.0.0", "1.0.0-rc.1"]), annotated=bool(idx % 2))
+        for _ in range(idx % 3):
+            repo.commit()
+        for kind in ("clean", "submodule_modified"):
+            dirty = repo.make_dirty(kind)
+            fmt = rng.choice(FORMATS)
+            for via, obs in (("probe", observe_probe(pr, repo, fmt)), ("binary", observe_binary(bins, repo, fmt))):
+                n += 1
+                if obs.get("timeout"):
+                    continue
+                for sig, why in judge(repo, fmt, dirty, obs, via):
+                    bad.append((sig, "[super-project with submodule; %s, -f %s, dirt=%s] %s" % (via, fmt, kind, why), dict(kind="submodule", seed=seed, idx=idx)))
+    except gitmodel.GitError as e:
+        raise core.Inconclusive("submodule scenario: %s" % e)
+    finally:
+        shutil_rm(os.path.dirname(path))
+    return dict(n=n, bad=bad)
+
+
 def run(ctx):
     quick = ctx.tier == "quick"
     nh = 320 if quick else 4000
@@ -289,6 +321,11 @@ def run(ctx):
             ctx.refute(sig, why, case)
         if r["sample"]:
             ctx.sample(r["sample"], cap=3)
+    for r in core.pmap(work_submodule, [(ctx.bins, "%s/%d" % (ctx.prop, ctx.seed), i, ctx.tmp) for i in range(6 if quick else 30)]):
+        ctx.evaluations += r["n"]
+        ctx.count("submodule_observations", r["n"])
+        for sig, why, case in r["bad"]:
+            ctx.refute(sig, why, case)
     ctx.notes.append("git sub-commands seen in shim logs: %s" % sorted(gitcmds))
     need = ["merge_in_history", "unreachable_valid_tag_present", "multi_tag_commit", "head:detached", "no_valid_tag_states", "annotated_on_chosen_commit"] + \
            ["dirt:" + k for k in gitmodel.DIRT_KINDS]
@@ -305,7 +342,11 @@ def run(ctx):
 
 def replay(ctx, doc):
     c = doc["case"]
-    r = work_history(ctx.bins, c["seed"], c["idx"], c["nops"], 12, ctx.tmp)
+    if c.get("kind") == "submodule":
+        r = work_submodule(ctx.bins, c["seed"], c["idx"], ctx.tmp)
+        r["nobs"] = r["n"]
+    else:
+        r = work_history(ctx.bins, c["seed"], c["idx"], c["nops"], 12, ctx.tmp)
     for sig, why, case in r["bad"]:
         print(sig, why)
     if r["bad"]:
